@@ -315,6 +315,17 @@ func (e *ParserData) FlagsPush() {
 	e.flagsStack = append(e.flagsStack, e.Config)
 }
 
+// flagsKey 把影响语法的开关编码成一个数，用来区分记忆表
+func (e *ParserData) flagsKey() uint8 {
+	var k uint8
+	for i, b := range []bool{e.Config.EnableDiceWoD, e.Config.EnableDiceCoC, e.Config.EnableDiceFate, e.Config.EnableDiceDoubleCross, e.Config.DisableStmts, e.Config.DisableNDice, e.Config.DisableBitwiseOp} {
+		if b {
+			k |= 1 << uint(i)
+		}
+	}
+	return k
+}
+
 func (e *ParserData) FlagsPop() {
 	last := len(e.flagsStack) - 1
 	e.Config = e.flagsStack[last]
